@@ -75,6 +75,7 @@ COMMON_V_MEM = ['DynSizedStructure::ref_from_bytes', 'DynSizedStructure::ref_fro
 PROPS = {
     'C02': dict(
         v=[('u_mb2_core', ['BootInformation::load', 'BootInformation::has_valid_end_tag', 'BootInformation::total_size',
+                           'BootInformation::start_address', 'BootInformation::end_address', 'BootInformation::as_ptr',
                            'BootInformationHeader::total_size', 'BootInformationHeader::payload_len', 'BootInformationHeader::lemma_hdr_layout',
                            'DynSizedStructure::ref_from_ptr', 'DynSizedStructure::ref_from_slice', 'DynSizedStructure::ref_from_bytes',
                            'BytesRef::try_from', 'Header::total_size', 'TagTypeId::eq'])],
@@ -269,7 +270,9 @@ for _pid, _lvl in (('C13', 'other'), ('C16', 'other'), ('C17', 'other')):
     PROPS.setdefault(_pid, dict(v=[], k_quick=[], k_thorough=[]))['level'] = _lvl
 PROPS['C17']['v'] = [('u_mb2_dstlen', ['CommandLineTag::dst_len', 'BootLoaderNameTag::dst_len', 'ModuleTag::dst_len', 'COMMANDLINETAG_BASE_SIZE', 'BOOTLOADERNAMETAG_BASE_SIZE', 'MODULETAG_BASE_SIZE'])]
 PROPS.setdefault('C11', dict(v=[], k_quick=[], k_thorough=[]))
-PROPS['C11']['v'] = [('u_hdr_core', ['Multiboot2Header::iter', 'TagIter::new', 'TagIter::next', 'walk_collect', 'HeaderTagHeader::payload_len',
+PROPS['C11']['v'] = [('u_hdr_core', ['Multiboot2Header::iter', 'Multiboot2Header::verify_checksum', 'Multiboot2Header::header_magic',
+                                     'Multiboot2Header::arch', 'Multiboot2Header::length', 'Multiboot2Header::checksum', 'Multiboot2Header::calc_checksum',
+                                     'Multiboot2BasicHeader::arch', 'TagIter::new', 'TagIter::next', 'walk_collect', 'HeaderTagHeader::payload_len',
                                      'Multiboot2BasicHeader::length', 'Multiboot2BasicHeader::header_magic', 'Multiboot2BasicHeader::checksum'])]
 PROPS['C13']['explanation'] = 'Bounded contract check: Kani explores the real find_header on every buffer length 0..=48 and every content (unwinding assertions on) against the oracle transcribed from the statement (first occurrence of the little-endian magic, alignment, truncation, returned sub-slice identical in address and length; total: any panic is a failure). The 8192-byte search-window clause is NOT decided: unwinding 8189 window iterations is out of reach of CBMC here, and Iterator::position cannot be specified in this Verus. An edit of the constant 8192 would not be noticed.'
 PROPS['C16']['explanation'] = 'Bounded contract check: Kani verifies new_boxed on the compiled code for 0..=3 content slices of 0..=5 symbolic bytes each (header size field = 8 + total, header || content without gaps, size_of_val = total rounded up to 8, 8-aligned allocation, Kani`s allocator model checks that Box drop deallocates with the allocation`s layout) and clone_dyn for every declared size 8..=17 (every padding residue): same declared size, same bytes. This contract is what C06/C07/C12 assume in Verus.'
